@@ -4,6 +4,11 @@
 //!   m <text> | <kind> <err> <paylen>  malformed by construction: expected error constructor and payload length
 //!   x <text>                          mutated / garbage / unicode text, no expectation beyond "no panic"
 //!
+//!   @after <n> <text>,<text>,... @ <request>
+//!                                     history: <request> was answered on a thread on which, before it, <n> parses FAILED
+//!                                     (the listed texts, cyclically); model and reference are stateless, so the answer
+//!                                     must be the one of <request> alone
+//!
 //! <text> is the input as '.'-separated hexadecimal code points ('-' for the empty string).
 //! Answer: `ok <sexpr> | <rest> | val <bits>`  /  `err invalid <payload>`  /  `err unclosed <payload>`  /  `panic`.
 use q1t_harness::*;
@@ -229,6 +234,134 @@ const NOSTART: [&str; 16] = ["", ")", "*", "/", "+", "^", ",", "x", "a", "P", "e
 const GARBAGE: [&str; 40] = ["0", "1", "2", "9", ".", "e", "E", "+", "-", "*", "/", "^", "(", ")", " ", "  ", "\t", "\n", "pi", "p", "i",
     "sin", "cos", "tan", "exp", "ln", "sqrt", "sq", "s", "x", ",", "\u{a0}", "\u{2003}", "\u{661}", "\u{e9}", "\u{200b}", "\u{feff}", "1.5", "e+", "0x"];
 
+
+// ---------------------------------------------------------------------------------------------
+// histories: failed parses first, then normal use, on ONE thread
+
+fn unhex(txt: &str) -> String
+{
+    if txt == "-" { String::new() } else {
+        txt.split('.').map(|h| std::char::from_u32(u32::from_str_radix(h, 16).unwrap()).unwrap()).collect() }
+}
+
+/// Run `f` on a fresh thread (8 MiB stack, like the main thread) after `n` failing parses cycling through `fails`.
+fn after_failures<R: Send, F: FnOnce() -> R + Send>(n: usize, fails: &[String], f: F) -> R
+{
+    std::thread::scope(|s| {
+        std::thread::Builder::new().stack_size(8 << 20).spawn_scoped(s, || {
+            for i in 0..n { let _ = answer(&fails[i % fails.len()]); }
+            f()
+        }).unwrap().join().unwrap()
+    })
+}
+
+/// texts whose parse fails, by kind; most of them fail INSIDE an open parenthesis
+fn failing_texts(rng: &mut SplitMix64, mix: u64) -> Vec<String>
+{
+    let mut v: Vec<String> = Vec::new();
+    let body = |rng: &mut SplitMix64| -> String {
+        let d = rng.below(3) as u32;
+        let a = gen_ast(rng, d, false);
+        let c = lay(&a, 0, rng, false);
+        let mut b = String::new(); flatten(&c, &mut b); b
+    };
+    let op = |rng: &mut SplitMix64| -> &'static str { *rng.pick(&["+", "-", "*", "/", "^"]) };
+    let all = mix == 0;
+    if all || mix == 1
+    {
+        // `(1 +`: open parenthesis, operand, dangling operator
+        v.push("(1 +".to_string());
+        for _ in 0..3 { v.push(format!("{}({}{}{}{}", ws(rng), body(rng), ws(rng), op(rng), ws(rng))); }
+        v.push(format!("1 + (2 ^ )"));
+        v.push(format!("{}{}{}({}{}{})", body(rng), op(rng), ws(rng), body(rng), op(rng), ws(rng)));
+    }
+    if all || mix == 2
+    {
+        // `(x)`, `()`: text that cannot start an expression inside the parenthesis
+        v.push("(x)".to_string()); v.push("()".to_string()); v.push("( )".to_string()); v.push("(".to_string());
+        for _ in 0..2 { v.push(format!("{}({}{})", ws(rng), ws(rng), rng.pick(&NOSTART))); }
+        v.push("(2 * )".to_string());
+    }
+    if all || mix == 3
+    {
+        // several parentheses open at the failure: `((2*`, `((((`
+        v.push("((2*".to_string()); v.push("((3".to_string()); v.push("((((".to_string());
+        for _ in 0..3
+        {
+            let k = 2 + rng.below(6);
+            let mut t = String::new();
+            for _ in 0..k { t.push_str(&ws(rng)); t.push('('); if rng.below(3) == 0 { t.push_str(&body(rng)); t.push_str(op(rng)); } }
+            if rng.coin() { t.push_str(&body(rng)); t.push_str(op(rng)); }
+            v.push(t);
+        }
+    }
+    if all || mix == 4
+    {
+        // the parenthesis of a function call; a parenthesis whose content parses but is not closed
+        v.push("sin(".to_string()); v.push("sqrt((".to_string()); v.push("(1+2".to_string()); v.push("cos(1 +".to_string());
+        v.push(format!("{}({}", rng.pick(&FUNS), ws(rng)));
+        v.push(format!("{}(({}{}", rng.pick(&FUNS), body(rng), op(rng)));
+        v.push(format!("({}", body(rng)));
+    }
+    v
+}
+
+/// valid texts that contain parentheses (not only those of a function call), as Cst
+fn parenthesised(rng: &mut SplitMix64, i: usize) -> Cst
+{
+    let lit = |rng: &mut SplitMix64| Box::new(Ast::Lit(format!("{}", 1 + rng.below(9))));
+    let a = Box::new(gen_ast(rng, 1 + (i % 4) as u32, false));
+    match i % 5
+    {
+        0 => { let w = ws(rng); let c = lay(&a, 0, rng, false); Cst::P(w, Box::new(c), ws(rng)) },
+        1 => lay(&Ast::Bin('*', Box::new(Ast::Bin('+', lit(rng), lit(rng))), lit(rng)), 0, rng, false),               // (1+2)*3
+        2 => lay(&Ast::Bin('/', lit(rng), Box::new(Ast::Bin('-', a, lit(rng)))), 0, rng, false),                      // 1/(a - 2)
+        3 => lay(&Ast::App("sqrt", Box::new(Ast::Bin('+', Box::new(Ast::Bin('*', lit(rng), lit(rng))),
+                 Box::new(Ast::Bin('^', Box::new(Ast::Bin('-', a, lit(rng))), lit(rng)))))), 0, rng, false),            // sqrt(3*3+(a-4)^2)
+        _ => { let w1 = ws(rng); let w2 = ws(rng); let w3 = ws(rng);                                                      // -((a))
+               let c = lay(&a, 0, rng, false);
+               Cst::N(w1, Box::new(Cst::P(w2, Box::new(Cst::P(String::new(), Box::new(c), String::new())), w3))) }
+    }
+}
+
+fn history_stream(out: &mut Out, rng: &mut SplitMix64)
+{
+    let sizes: &[usize] = if thorough() { &[50, 199, 200, 250, 1000, 5000] } else { &[50, 250, 1000] };
+    for (bi, &n) in sizes.iter().enumerate()
+    {
+        let nmix = if n <= 250 { 5 } else { 2 };
+        for mix0 in 0..nmix
+        {
+            let mix = if n <= 250 { mix0 as u64 } else { [0u64, 3][mix0] };
+            let fails = failing_texts(rng, mix);
+            // the failing texts themselves, once each (their own thread; fewer than 50 of them)
+            let answers = after_failures(0, &fails, || fails.iter().map(|t| answer(t)).collect::<Vec<_>>());
+            for (t, a) in fails.iter().zip(answers.iter()) { out.case(&format!("x {}", hex(t)), a); }
+            // valid parenthesised texts after n failures on the same thread
+            let prefix = format!("@after {} {} @ ", n, fails.iter().map(|t| hex(t)).collect::<Vec<_>>().join(","));
+            let nvalid = 10;
+            let mut reqs: Vec<String> = Vec::new();
+            let mut texts: Vec<String> = Vec::new();
+            for i in 0..nvalid
+            {
+                let c = parenthesised(rng, i + bi + mix0);
+                let mut s = String::new();
+                flatten(&c, &mut s);
+                let rest = if i % 2 == 0 { String::new() } else { remainder(rng) };
+                let rl = rest.chars().count();
+                s.push_str(&rest);
+                reqs.push(format!("{}g {} | {} | {}", prefix, hex(&s), rl, ser(&c)));
+                texts.push(s);
+            }
+            // the first two each with exactly this history (own thread); the others one after another on one thread
+            let exact = if n <= 250 { 2 } else { 1 };
+            for i in 0..exact { let a = after_failures(n, &fails, || answer(&texts[i])); out.case(&reqs[i], &a); }
+            let answers = after_failures(n, &fails, || texts[exact..].iter().map(|t| answer(t)).collect::<Vec<_>>());
+            for (r, a) in reqs[exact..].iter().zip(answers.iter()) { out.case(r, a); }
+        }
+    }
+}
+
 fn main()
 {
     let dir = std::env::args().nth(1).expect("usage: c14 <outdir> [replay <request line>]");
@@ -239,9 +372,21 @@ fn main()
     {
         // re-answer one recorded request line
         let req = std::env::args().nth(3).expect("replay needs the request line");
-        let txt = req.split_whitespace().nth(1).unwrap_or("-");
-        let s: String = if txt == "-" { String::new() } else {
-            txt.split('.').map(|h| std::char::from_u32(u32::from_str_radix(h, 16).unwrap()).unwrap()).collect() };
+        if req.starts_with("@after ")
+        {
+            // `@after <n> <texts> @ <request>`: n failed parses, then the request, on one fresh thread
+            let mut it = req.splitn(2, " @ ");
+            let head: Vec<&str> = it.next().unwrap().split_whitespace().collect();
+            let inner = it.next().expect("@after needs ` @ <request>`");
+            let n: usize = head[1].parse().expect("count");
+            let fails: Vec<String> = head[2].split(',').map(unhex).collect();
+            let s = unhex(inner.split_whitespace().nth(1).unwrap_or("-"));
+            let a = after_failures(n, &fails, || answer(&s));
+            out.case(&req, &a);
+            out.finish();
+            return;
+        }
+        let s = unhex(req.split_whitespace().nth(1).unwrap_or("-"));
         out.case(&req, &answer(&s));
         out.finish();
         return;
@@ -404,6 +549,7 @@ fn main()
         };
         out.case(&format!("x {}", hex(&s)), &answer(&s));
     }
+    history_stream(&mut out, &mut rng);
     let n = out.finish();
     eprintln!("c14: {} cases", n);
 }
